@@ -28,7 +28,7 @@ BUDGET = {"quick": (12, 780, 90), "thorough": (16, 2500, 1200)}
 MANDATORY = ["judged:solve:polyhedron-is-asserted-model", "judged:solve:objective-alignment", "judged:solve:reported-dict", "judged:solve:optimal",
              "judged:solve:satisfies-model(solver-safe)", "judged:solve:none->{}", "judged:select:polyhedron-is-own", "judged:select:reported-dict",
              "judged:select:only_leafs", "judged:select:none->{}", "judged:select:exception->InfeasibleError", "judged:select:optimal",
-             "count:include_virtual_variables", "count:generator-result"]
+             "count:include_virtual_variables", "count:generator-result", "count:try_reduce_before"]
 
 
 class CustomSolverError(Exception):
@@ -53,7 +53,11 @@ def run_solve(case, ctx):
     if adapters.is_leaf(m):
         raise monitor.OutOfScope()
     graph, top, info = common.domain(m)
-    ref_poly = recipes.fresh(case["recipe"]).to_ge_polyhedron(True)
+    red = bool(case.get("reduce"))
+    # try_reduce_before: the solver is handed the reduced form of the asserted polyhedron; ids, objectives and reported values pair with ITS columns
+    ref_poly = recipes.fresh(case["recipe"]).to_ge_polyhedron(True, reduced=True) if red else recipes.fresh(case["recipe"]).to_ge_polyhedron(True)
+    if red:
+        ctx.count("count:try_reduce_before")
     col_ids = [v.id for v in ref_poly.variables][1:]
     bounds = [v.bounds.as_tuple() for v in ref_poly.variables][1:]
     if refmodel.box_size(bounds, 1 << 17) > (1 << 17):
@@ -83,8 +87,8 @@ def run_solve(case, ctx):
         ctx.count("count:objectives-as-iterable")
     else:
         mk_objs = lambda: [dict(o) for o in objs]
-    res = ctx.call("solve", lambda: list(m.solve(mk_objs(), solver=solver, include_virtual_variables=inc)))
-    h = {"api": "solve", "recipe": case["recipe"], "objectives_given": objs, "include_virtual_variables": inc, "faults": {str(k): str(v) for k, v in faults.items()}}
+    res = ctx.call("solve", lambda: list(m.solve(mk_objs(), solver=solver, include_virtual_variables=inc, **({"try_reduce_before": True} if red else {}))))
+    h = {"api": "solve", "recipe": case["recipe"], "objectives_given": objs, "include_virtual_variables": inc, "try_reduce_before": red, "faults": {str(k): str(v) for k, v in faults.items()}}
     if "objectives" not in rec:
         ctx.check(False, "solve:polyhedron-is-asserted-model", lambda: dict(h, note="solver callable never invoked"))
         return
@@ -245,7 +249,12 @@ def gen_case(rng, tier, ctx, i):
                 if n["k"] in ("Any", "Xor") and len(n["args"]) >= 2 and all(a["k"] in ("var", "str") for a in n["args"]) and rng.random() < 0.7:
                     n["k"] = "ccAny" if n["k"] == "Any" else "ccXor"
                     n["default"] = [rng.choice(n["args"])["id"]]
-        return {"api": "solve", "recipe": rec, "seed": rng.getrandbits(32)}
+        if rng.random() < 0.2:
+            # sub-propositions the author named himself, with names that happen to begin like the generated ones ("VARIANT ...")
+            for n in refmodel.recipe_nodes(rec):
+                if n["k"] not in ("var", "str", "ref") and n.get("id") and not str(n["id"]).startswith("VAR"):
+                    n["id"] = "VARIANT " + str(n["id"])
+        return {"api": "solve", "recipe": rec, "seed": rng.getrandbits(32), "reduce": rng.random() < 0.25}
     rec = confgen.gen_config(rng)
     if rng.random() < 0.15:
         BIG = rng.choice([3_000_000_000, 2 ** 33, -3_000_000_000])
